@@ -10,14 +10,14 @@ FUNCTIONS = [
     "batchie.scoring.gaussian_dbal.dbal_fast_gauss_scoring_vectorized (triple selection part)",
 ]
 BOUNDS = {
-    "quick": "every n<=10, k<=4 (and k=0, k>n): index symbolic over [0,C(n,k)); scoring use: n_thetas<=5 with every draw of rng.choice, and n_thetas 12/30/150 (default budget) with an adversarial generator",
+    "quick": "loop-invariant lemmas: n and index unbounded, k=1..4; enumeration: every n<=10, k<=4 (and k=0, k>n): index symbolic over [0,C(n,k)); scoring use: n_thetas<=5 with every draw of rng.choice, and n_thetas 12/30/150 (default budget) with an adversarial generator",
     "thorough": "every n<=18, k<=4; scoring use: n_thetas<=5",
 }
 ASSUMPTIONS = [
     "rng.choice(N, size, replace=False) returns an arbitrary sequence of distinct elements of range(N) (numpy's contract; every such sequence is explored)",
     "Python int arithmetic = mathematical integers (z3 Int), floor division and modulo with Python semantics",
 ]
-OUTSIDE = ["n above the bound (the production regime n in the hundreds is covered only by the loop-invariant lemmas when built; see DESIGN.md C15-B)", "k > 4"]
+OUTSIDE = ["k > 4", "for n above the enumeration bound the claim rests on the loop-invariant lemmas (unbounded n, k<=4) plus two classical facts listed under trusted"]
 RULE = "one path per (n,k) and per index interval the code distinguishes; the index stays symbolic on the path."
 BUDGET_S = {"quick": 200, "thorough": 1500}
 TASK_QUOTA = 200
@@ -115,5 +115,35 @@ def h_triples(ctx, cfg):
     return len(seen)
 
 
+def h_lemma_replay(ctx, cfg):
+    """replay of a failed-lemma witness: the concrete call must disagree with the combinatorial number system"""
+    from .c15_lemmas import _reference_unrank
+    gd = ctx.mod("batchie.scoring.gaussian_dbal")
+    index, n, k = ctx.int("index", 0), ctx.int("n", 0), ctx.int("k", 1)
+    ctx.prove(tuple(int(x) for x in gd.get_combination_at_sorted_index(index, n, k)) == _reference_unrank(index, n, k),
+              "combination unranking differs from the combinatorial number system")
+    return 1
+
+
+def extra(tier, seed, deadline):
+    """C15-B: unbounded-n loop-invariant lemmas (see c15_lemmas.py)"""
+    from . import c15_lemmas
+
+    def real_fn():
+        import importlib
+        from .. import loader as _ld
+        if _ld.CURRENT_PATCHES:  # self-test: the mutant exists only in memory
+            return _ld.Loader(patches=_ld.CURRENT_PATCHES).load("batchie.scoring.gaussian_dbal").get_combination_at_sorted_index
+        return importlib.import_module("batchie.scoring.gaussian_dbal").get_combination_at_sorted_index
+    rep = c15_lemmas.run(tier, seed, deadline, real_fn)
+    return dict(stats=rep.stats, labels=rep.labels, samples=rep.samples, violations=rep.violations, inconclusive=rep.inconclusive,
+                evaluations=rep.stats["obligations"], distinct_nontrivial=rep.stats["discharged"],
+                coverage=dict(unbounded_lemmas=dict(
+                    scope="generate_combination_at_sorted_index, statements cut from the current source with ast; n and index unbounded symbolic integers, k = 1..4",
+                    obligations=rep.stats["obligations"], discharged=rep.stats["discharged"], solver_s=round(rep.stats["solver_s"], 2),
+                    trusted=["j! divides every product of j consecutive integers (witness integers c with j! c = P(x,j))",
+                             "uniqueness and order preservation of the combinatorial number system representation"])))
+
+
 def run(ctx, cfg):
-    return {"unrank": h_unrank, "triples": h_triples}[cfg["h"]](ctx, cfg)
+    return {"unrank": h_unrank, "triples": h_triples, "lemma_replay": h_lemma_replay}[cfg["h"]](ctx, cfg)
